@@ -19,6 +19,9 @@ RULE = ('histories of 3-12 steps over predicate names a b c d with arities 0-3: 
         'changes nothing). Thorough adds all load-order permutations of 4 scripts x overwrite flags. Non-trivial = '
         'some name/arity has >= 2 sources (facts+definition, two groups, exact+variadic); distinct = hash of the history')
 ASSUMPTIONS = ['reference interpreters A and B agree', 'API names are not used as predicate names here (C12)']
+RULE_ADDED = (' Added after the rounds of independently written changes (DESIGN.md 12.2): ' +
+              'calls suspended while definitions change; recursive predicates whose base case lives in a fact / another load / a registration; inferred arity of decorated, partial, bound-method, callable-object, lambda, default-argument and __signature__ callables; scripts loaded through load_script_from_file.')
+RULE = RULE + RULE_ADDED
 
 NAMES = ['a', 'b', 'c', 'd']
 PROBES = [(n, k) for n in NAMES for k in range(4)]
